@@ -1,0 +1,22 @@
+//go:build !verif
+
+package regexp2
+
+// Empty counterparts of the verification hooks in verif_hooks.go; they inline
+// to nothing in ordinary builds.
+
+const (
+	verifPtGetRunner = iota
+	verifPtPutRunner
+	verifPtQuickCode
+	verifPtReplacerMiss
+	verifPtPoolGet
+	verifPtPoolPut
+	verifPtMakeDeadline
+	verifPtClockWake
+	verifPtStopClock
+)
+
+func verifPoint(id int) {}
+
+func verifTrackAlloc(r *Runner, n int) {}
